@@ -10,7 +10,7 @@ C08 — executable models (no Mathlib; everything here is computable and is what
              only access to names is that frame stack.
 * `strip`    func_adl `extract_metadata`;  `attachAt` wraps a `MetaData` call around any sub-term.
 * `procMd`   the order-relevant content of `process_metadata` + the executor's use of its result.
-* `simp`     func_adl `simplify_chained_calls` (β-reduction through the frame stack, Select/Where/SelectMany
+* `simplify`     func_adl `simplify_chained_calls` (β-reduction through the frame stack, Select/Where/SelectMany
              fusion and permutation rules, tuple/list/dict projection, moving `.attr`, `[i]`, `.m()` past `First`).
 * `wprint`/`wparse`  qastle's text format at token level.
 * `canon`    first-occurrence renumbering of generated names in a lexed package.
@@ -422,12 +422,23 @@ def makeSelect (src sel : Q) : Q := if isIdentity sel then src else Q.call "Sele
 
 def strLit (s : String) : Q := .lit ("str:'" ++ s ++ "'")
 
+/-- `p` is a prefix of `s` (on character lists, so that the kernel can evaluate it) -/
+def startsW (p s : String) : Bool := p.toList.isPrefixOf s.toList
+
+def digitsVal : List Char → Option Nat
+  | [] => none
+  | ds => ds.foldl (fun acc c => match acc with
+      | none => none
+      | some a => if c.isDigit then some (a * 10 + (c.toNat - '0'.toNat)) else none) (some 0)
+
 /-- value of an integer-like constant (`int:<n>`, `bool:True/False`) -/
 def litInt? (c : String) : Option Int :=
   if c == "bool:True" then some 1
   else if c == "bool:False" then some 0
-  else if c.startsWith "int:" then (c.drop 4).toString.toInt?
-  else none
+  else match c.toList with
+    | 'i' :: 'n' :: 't' :: ':' :: '-' :: ds => (digitsVal ds).map (fun n => -(n : Int))
+    | 'i' :: 'n' :: 't' :: ':' :: ds => (digitsVal ds).map (fun n => (n : Int))
+    | _ => none
 
 def dictLookup : List Q → List Q → Q → Option Q
   | k :: ks, v :: vs, key => match k, key with
@@ -457,58 +468,60 @@ def firstArg : Q → Q
   | _ => .lit "!IndexError"
 
 def attrName? (t : String) : Option String :=
-  if t.startsWith "attr:" then some (t.drop 5).toString else none
+  match t.toList with
+  | 'a' :: 't' :: 't' :: 'r' :: ':' :: rest => some (String.ofList rest)
+  | _ => none
 
 mutual
 /-- `simplify_chained_calls().visit`, with the frame stack `env` (names bound by the lambdas whose calls are
 being reduced), the global `argument_var_counter` `n`, and fuel for the re-visits of constructed terms.
 Results whose text starts with `!` stand for an exception of the code. -/
-def simp : Nat → Stack Q → Nat → Q → Q × Nat
+def simplify : Nat → Stack Q → Nat → Q → Q × Nat
   | 0, _, n, _ => (.lit "!fuel", n)
   | _ + 1, env, n, .var x => ((env.lookup x).getD (.var x), n)          -- visit_Name
   | _ + 1, _, n, .lit c => (.lit c, n)
   | fuel + 1, env, n, .lam ps b =>                                       -- generic_visit: parameters do NOT shadow `env`
-    let r := simp fuel env n b
+    let r := simplify fuel env n b
     (.lam ps r.1, r.2)
   | fuel + 1, env, n, .app (.lam ps b) as =>                            -- visit_Call on a lambda: β
-    let r := simpL fuel env n as
-    simp fuel (ps.zip r.1 :: env) r.2 b
+    let r := simplifyL fuel env n as
+    simplify fuel (ps.zip r.1 :: env) r.2 b
   | fuel + 1, env, n, .app (.node t [recv]) as =>
     if (attrName? t).isSome && recv.isCallOf "First" then
       -- select_method_call_on_first:  First(seq).m(args)  =>  First(Select(seq, a: a.m(args)))
       let a := argName n
-      simp fuel env (n + 1) (Q.call "First" [makeSelect (firstArg recv) (.lam [a] (.app (.node t [.var a]) as))])
+      simplify fuel env (n + 1) (Q.call "First" [makeSelect (firstArg recv) (.lam [a] (.app (.node t [.var a]) as))])
     else
-      let rf := simp fuel env n (.node t [recv])
-      let ra := simpL fuel env rf.2 as
+      let rf := simplify fuel env n (.node t [recv])
+      let ra := simplifyL fuel env rf.2 as
       (.app rf.1 ra.1, ra.2)
   | fuel + 1, env, n, .app (.var fname) as =>
     if fname == "Select" then
       match as with
       | src :: sel :: _ =>
         if !isLam sel then (.lit "!AssertionError", n) else
-        let p := simp fuel env n src
+        let p := simplify fuel env n src
         if p.1.isCallOf "Select" then
           match p.1 with
           | .app _ (source :: f :: _) =>
             let c := convolute p.2 sel f
-            let r := simp fuel env c.2 c.1
+            let r := simplify fuel env c.2 c.1
             (makeSelect source r.1, r.2)
           | _ => (.lit "!IndexError", p.2)
         else if p.1.isCallOf "SelectMany" then
           match p.1 with
           | .app _ (source :: .lam fps fb :: _) =>
-            simp fuel env p.2 (Q.call "SelectMany" [source, .lam fps (makeSelect fb sel)])
+            simplify fuel env p.2 (Q.call "SelectMany" [source, .lam fps (makeSelect fb sel)])
           | _ => (.lit "!AssertionError", p.2)
         else
-          let r := simp fuel env p.2 sel
+          let r := simplify fuel env p.2 sel
           (makeSelect p.1 r.1, r.2)
       | _ => (.lit "!IndexError", n)
     else if fname == "SelectMany" then
       match as with
       | src :: sel :: _ =>
         if !isLam sel then (.lit "!AssertionError", n) else
-        let p := simp fuel env n src
+        let p := simplify fuel env n src
         if p.1.isCallOf "SelectMany" then
           match p.1 with
           | .app _ (seq :: .lam (x :: _) fb :: _) =>
@@ -518,54 +531,54 @@ def simp : Nat → Stack Q → Nat → Q → Q × Nat
           match p.1 with
           | .app _ [seq, f] =>
             let c := convolute p.2 sel f
-            let r := simp fuel env c.2 c.1
+            let r := simplify fuel env c.2 c.1
             (Q.call "SelectMany" [seq, r.1], r.2)
           | _ => (.lit "!AssertionError", p.2)
         else
-          let r := simp fuel env p.2 sel
+          let r := simplify fuel env p.2 sel
           (Q.call "SelectMany" [p.1, r.1], r.2)
       | _ => (.lit "!IndexError", n)
     else if fname == "Where" then
       match as with
       | src :: flt :: _ =>
         if !isLam flt then (.lit "!AssertionError", n) else
-        let p := simp fuel env n src
+        let p := simplify fuel env n src
         if p.1.isCallOf "Where" then
           match p.1 with
           | .app _ (source :: f :: _) =>
             let a := argName p.2
             let conv := Q.lam [a] (.node "bool:And" [.app f [.var a], .app flt [.var a]])
-            simp fuel env (p.2 + 1) (Q.call "Where" [source, conv])
+            simplify fuel env (p.2 + 1) (Q.call "Where" [source, conv])
           | _ => (.lit "!IndexError", p.2)
         else if p.1.isCallOf "Select" then
           match p.1 with
           | .app _ (source :: f :: _) =>
             let c := convolute p.2 flt f
-            let r := simp fuel env c.2 c.1
-            simp fuel env r.2 (makeSelect (Q.call "Where" [source, r.1]) f)
+            let r := simplify fuel env c.2 c.1
+            simplify fuel env r.2 (makeSelect (Q.call "Where" [source, r.1]) f)
           | _ => (.lit "!IndexError", p.2)
         else if p.1.isCallOf "SelectMany" then
           match p.1 with
           | .app _ (seq :: .lam fps fb :: _) =>
-            simp fuel env p.2 (Q.call "SelectMany" [seq, .lam fps (Q.call "Where" [fb, flt])])
+            simplify fuel env p.2 (Q.call "SelectMany" [seq, .lam fps (Q.call "Where" [fb, flt])])
           | _ => (.lit "!AssertionError", p.2)
         else
-          let r := simp fuel env p.2 flt
+          let r := simplify fuel env p.2 flt
           if isTrueLam r.1 then (p.1, r.2) else (Q.call "Where" [p.1, r.1], r.2)
       | _ => (.lit "!IndexError", n)
     else
       -- generic_visit of the call: the function name, then the arguments
-      let rf := simp fuel env n (.var fname)
-      let ra := simpL fuel env rf.2 as
+      let rf := simplify fuel env n (.var fname)
+      let ra := simplifyL fuel env rf.2 as
       (.app rf.1 ra.1, ra.2)
   | fuel + 1, env, n, .app f as =>
-    let rf := simp fuel env n f
-    let ra := simpL fuel env rf.2 as
+    let rf := simplify fuel env n f
+    let ra := simplifyL fuel env rf.2 as
     (.app rf.1 ra.1, ra.2)
   | fuel + 1, env, n, .node t [value, slice] =>
     if t == "sub" then
-      let v := simp fuel env n value
-      let s := simp fuel env v.2 slice
+      let v := simplify fuel env n value
+      let s := simplify fuel env v.2 slice
       match v.1 with
       | .node vt elts =>
         if vt == "tuple" then (projectSeq true v.1 elts s.1, s.2)
@@ -573,7 +586,7 @@ def simp : Nat → Stack Q → Nat → Q → Q × Nat
         else if vt == "dict" then
           match s.1 with
           | .lit c =>
-            if (litInt? c).isSome || c.startsWith "str:" then ((dictGet elts s.1).getD (.node "sub" [v.1, s.1]), s.2)
+            if (litInt? c).isSome || startsW "str:" c then ((dictGet elts s.1).getD (.node "sub" [v.1, s.1]), s.2)
             else (.lit "!AssertionError", s.2)
           | _ => (.lit "!AttributeError", s.2)
         else (.node "sub" [v.1, s.1], s.2)
@@ -581,10 +594,10 @@ def simp : Nat → Stack Q → Nat → Q → Q × Nat
         if v.1.isCallOf "First" then
           -- visit_Subscript_Of_First:  First(seq)[i]  =>  First(Select(seq, a: a[i]))
           let a := argName s.2
-          simp fuel env (s.2 + 1) (Q.call "First" [makeSelect (firstArg v.1) (.lam [a] (.node "sub" [.var a, s.1]))])
+          simplify fuel env (s.2 + 1) (Q.call "First" [makeSelect (firstArg v.1) (.lam [a] (.node "sub" [.var a, s.1]))])
         else (.node "sub" [v.1, s.1], s.2)
     else
-      let r := simpL fuel env n [value, slice]
+      let r := simplifyL fuel env n [value, slice]
       (.node t r.1, r.2)
   | fuel + 1, env, n, .node t [value] =>
     match attrName? t with
@@ -592,26 +605,26 @@ def simp : Nat → Stack Q → Nat → Q → Q × Nat
       if value.isCallOf "First" then
         -- visit_Attribute_Of_First:  First(seq).attr  =>  First(Select(seq, a: a.attr))
         let a := argName n
-        simp fuel env (n + 1) (Q.call "First" [makeSelect (firstArg value) (.lam [a] (.node t [.var a]))])
+        simplify fuel env (n + 1) (Q.call "First" [makeSelect (firstArg value) (.lam [a] (.node t [.var a]))])
       else
-        let v := simp fuel env n value
+        let v := simplify fuel env n value
         match v.1 with
         | .node vt elts =>
           if vt == "dict" then ((dictGet elts (strLit name)).getD (.node "sub" [v.1, strLit name]), v.2)
           else (.node t [v.1], v.2)
         | _ => (.node t [v.1], v.2)
     | none =>
-      let r := simpL fuel env n [value]
+      let r := simplifyL fuel env n [value]
       (.node t r.1, r.2)
   | fuel + 1, env, n, .node t ks =>
-    let r := simpL fuel env n ks
+    let r := simplifyL fuel env n ks
     (.node t r.1, r.2)
-def simpL : Nat → Stack Q → Nat → List Q → List Q × Nat
+def simplifyL : Nat → Stack Q → Nat → List Q → List Q × Nat
   | 0, _, n, _ => ([.lit "!fuel"], n)
   | _ + 1, _, n, [] => ([], n)
   | fuel + 1, env, n, q :: qs =>
-    let r := simp fuel env n q
-    let rs := simpL fuel env r.2 qs
+    let r := simplify fuel env n q
+    let rs := simplifyL fuel env r.2 qs
     (r.1 :: rs.1, rs.2)
 end
 
@@ -619,7 +632,7 @@ mutual
 /-- does the result stand for an exception? -/
 def hasBang : Q → Bool
   | .var _ => false
-  | .lit c => c.startsWith "!"
+  | .lit c => startsW "!" c
   | .lam _ b => hasBang b
   | .app f as => hasBang f || hasBangL as
   | .node _ ks => hasBangL ks
